@@ -202,6 +202,10 @@ fn execute(plan: &StaticPlan, mode: Mode) -> RunOut {
             match (0..info.leaves).find(|n| info.leaf_labels(*n) == m) {
                 Some(n) => {
                     seen[n] += 1;
+                    if *v == f64::NEG_INFINITY {
+                        out.violations.push(Violation::new("C19/child", "C19/child:buckets", format!("{} {}: the histogram child {:?} reports a count or bucket counts that do not describe the observations its sum is made of", dname, when, m)));
+                        continue;
+                    }
                     let u = f2u(*v).unwrap_or(u64::MAX);
                     if u & !upper[n] != 0 || lower[n] & !u != 0 {
                         let wrong = u & !upper[n];
